@@ -502,6 +502,10 @@ func (m *mon) accepted(j jid.JID, how, input string, depth int) {
 		if m.bad {
 			return
 		}
+		m.decoding(j, input)
+		if m.bad {
+			return
+		}
 	}
 
 	// mutants of the accepted address
@@ -598,6 +602,9 @@ func Prop() *core.Prop {
 			"law_L5_xml_roundtrips",
 			"alias_sequences", "alias_ops", "alias_held_values_rechecked", "alias_base_shrank_under_normalisation",
 			"alias_WithResource_on_receiver_without_resourcepart", "alias_WithResource_fits_in_bytes_behind_receiver", "alias_two_results_from_one_receiver",
+			"decode_sequences", "decode_ops", "decode_into_used_destination", "decode_into_used_destination_failed", "decode_into_used_destination_not_longer",
+			"decode_into_used_destination_longer", "decode_late_failing_into_used_destination",
+			"decode_destination_variable", "decode_destination_struct-field-attribute", "decode_destination_struct-field-element", "decode_destination_slice-element", "decode_destination_method-call",
 			"alias_op_Bare", "alias_op_Domain", "alias_op_Copy", "alias_op_WithLocal", "alias_op_WithDomain", "alias_op_WithResource",
 		},
 	}
